@@ -1,0 +1,16 @@
+//go:build verif
+// +build verif
+
+package cmd
+
+import "github.com/hnakamur/whispertool"
+
+// VerifNow, when set by a verification harness, replaces the wall clock read by the commands.
+var VerifNow func() whispertool.Timestamp
+
+func verifNow(t whispertool.Timestamp) whispertool.Timestamp {
+	if VerifNow != nil {
+		return VerifNow()
+	}
+	return t
+}
